@@ -84,6 +84,19 @@ impl Kanata {
             if let Err(e) = write_key(&mut self.kbd_out, event.code, KeyValue::Repeat) {
                 bail!("could not write key {e:?}");
             }
+            return Ok(());
+        }
+        // The defsrc key may itself be the input of an override whose output is what is down.
+        for osc in self
+            .overrides
+            .output_non_mods_for_input_non_mod(event.code)
+        {
+            if self.prev_keys.contains(&osc.into()) {
+                if let Err(e) = write_key(&mut self.kbd_out, osc, KeyValue::Repeat) {
+                    bail!("could not write key {e:?}");
+                }
+                return Ok(());
+            }
         }
         Ok(())
     }
